@@ -1291,7 +1291,6 @@ func c01AndroidMetric(c *an.Ctx) {
 	})
 }
 
-
 func avStrings(as []an.AV) (ss []string) {
 	for _, a := range as {
 		ss = append(ss, a.String())
